@@ -13,7 +13,8 @@ checks, na = [], []
 for p in props:
     pid = p["id"]
     cfg = PROPS.get(pid)
-    if cfg and cfg.get("manifest"):
+    props_file = os.path.join(VERIF, "lean", "DnsVerif", "Props", pid + ".lean")
+    if cfg and cfg.get("manifest") and os.path.exists(props_file) and not cfg.get("pending_props"):
         mf = cfg["manifest"]
         checks.append({
             "property_id": pid,
